@@ -253,7 +253,9 @@ def style_specs(draw, n):
         if draw(st.booleans()):
             if draw(st.integers(0, 3)) == 0:
                 data = bytes([137, 80, 78, 71, 13, 10, 26, 10]) + draw(st.binary(min_size=4, max_size=30))
-                s["bg_image"] = [f"docgen_img_{i}_{draw(st.integers(0, 10**6))}.png", data.hex()]
+                # some names look like other things a package holds (an inner zip, a document, an archive)
+                suffix = draw(st.sampled_from([".png", ".png", ".png", "-index.zip", ".numbers.png", ".iwa.png"]))
+                s["bg_image"] = [f"docgen_img_{i}_{draw(st.integers(0, 10**6))}{suffix}", data.hex()]
             else:
                 s["bg_color"] = draw(rgb)
         if draw(st.booleans()):
